@@ -35,6 +35,9 @@ Inductive muxcase :=
    mask drops the boundaries inside the expansion of a derived operator (mean = scan ; map), which
    the real code, having one operator there, cannot tap *)
 | MCBnd (p : list op) (t : list iev) (mask : list bool) (taps : list (list oev))
+(* the protocol predicate of the C03 theorems itself (allowed_seq, through its boolean reflection
+   Boundaries.allowed_seq_b), evaluated on what the recording taps saw in the real code *)
+| MCWf (taps : list (list oev))
 (* the pipeline satisfies the hypothesis of QuietProofs.nothing_held_back *)
 | MCPerItem (p : list op)
 | MCAnd (a b : muxcase).
@@ -56,6 +59,15 @@ Fixpoint keep {A} (mask : list bool) (l : list A) : list A :=
   | false :: m, _ :: l' => keep m l'
   | _, _ => l
   end.
+Fixpoint evs_of_oevs (t : list oev) : list (ev unit) :=
+  match t with
+  | [] => []
+  | OC k :: r => Create k :: evs_of_oevs r
+  | ON k _ :: r | OE k _ :: r => Next k tt :: evs_of_oevs r
+  | OD k :: r => Done k :: evs_of_oevs r
+  | _ :: r => evs_of_oevs r
+  end.
+Definition tap_wf (t : list oev) : bool := allowed_seq_b unit [] (evs_of_oevs t).
 Fixpoint mux_check (c : muxcase) : bool :=
   match c with
   | MCRaised => false
@@ -64,6 +76,7 @@ Fixpoint mux_check (c : muxcase) : bool :=
   | MCPlain p runs => forallb (plain_agrees p) runs
   | MCPlainT p runs => forallb (plain_timed_agrees p) runs
   | MCBnd p t mask taps => list_eqb (list_eqb oev_same) (keep mask (map (map norm) (bnd_pipe p t))) taps
+  | MCWf taps => forallb tap_wf taps
   | MCPerItem p => per_item_pipe p
   | MCAnd a b => mux_check a && mux_check b
   end.
